@@ -650,8 +650,11 @@ def end_to_end(ctx, shipped, rejected=()):
     # coder 0/1 prefix/ANS, 2/3 + LZ77, 4/5 + LZ77 with distances beyond the decoded count. For the
     # last kind the profile's tail is made to repeat the first bytes of its own encoded stream, so
     # that a copy "from symbol 0" exists (two passes through the Lean ICC command encoder).
-    choice = [(p, rng.randrange(6), rng.randrange(8)) for p in profs]
-    idx = [i for i, (p, c, m) in enumerate(choice) if c >= 4 and len(p) >= 160]
+    # 6/7: LZ77 whose final copy runs past enc_size (the reader stops inside it); the profile's last
+    # bytes repeat the ones before so that the greedy parse ends with a copy.
+    choice = [(p, rng.randrange(8), rng.randrange(8)) for p in profs]
+    choice = [((p[:-8] + p[-16:-8]) if c >= 6 and len(p) >= 160 else p, c, m) for p, c, m in choice]
+    idx = [i for i, (p, c, m) in enumerate(choice) if c in (4, 5) and len(p) >= 160]
     enc1 = run_lines_robust([MODEL_EXE, "c18"], [f"encode auto:{choice[i][2]}: {choice[i][0].hex()}" for i in idx],
                             per_line_timeout=60)
     for i, e in zip(idx, enc1):
@@ -676,7 +679,8 @@ def end_to_end(ctx, shipped, rejected=()):
     outs = run_lines_robust([ctx.harness_bin("img")], [f"icc {h}" for _, h in todo], per_line_timeout=30)
     for ((p, ans, mode), h), o in zip(todo, outs):
         ctx.case(("e2e", p, ans, mode), nontrivial=len(p) > 128)
-        ctx.count("e2e:coder-" + ["prefix", "ans", "prefix+lz77", "ans+lz77", "prefix+lz77-overlong", "ans+lz77-overlong"][ans])
+        ctx.count("e2e:coder-" + ["prefix", "ans", "prefix+lz77", "ans+lz77", "prefix+lz77-overlong", "ans+lz77-overlong",
+                                    "prefix+lz77-copy-past-end", "ans+lz77-copy-past-end"][ans])
         rep = {"profile_hex": p.hex(), "codestream_hex": h, "coder": ans, "plan_mode": mode,
                "how": "echo 'icc <codestream hex>' | harness/target/debug/img"}
         if not o or o.startswith("panic") or o.startswith("crash") or o == "hang":
